@@ -12,7 +12,14 @@ Out    == IOEnv.OUT
 ---------------------------------------------------------------------------
 (* C03: every stream of at most N letters ending at the first terminal letter *)
 Alphabet == IF FlateP THEN Letters ELSE Letters
-C03Rows == SetToSeq({ [names |-> Names(s), exp |-> Run(s, FlateP)] : s \in Seqs(N, Alphabet, FlateP) })
+(* ... and long fragmented messages: one message of K+2 frames whose K middle frames are all empty continuations, all 5-byte   *)
+(* continuations, or all pings -- K around the constants a decoder built from library parts inherits from them (bufio gives up  *)
+(* after 100 reads that return nothing: 100 empty frames in a row inside a compressed message are a valid stream)               *)
+Ltr(n) == CHOOSE f \in Letters : f.n = n
+Rep(x, k) == [i \in 1..k |-> x]
+LongStreams == { <<Ltr(a)>> \o Rep(Ltr(m), k) \o <<Ltr("C1")>> :
+                   a \in {"T0"} \cup (IF FlateP THEN {"ZB0"} ELSE {}), m \in {"C0e", "C0", "PING0"}, k \in {100, 130} }
+C03Rows == SetToSeq({ [names |-> Names(s), exp |-> Run(s, FlateP)] : s \in Seqs(N, Alphabet, FlateP) \cup LongStreams })
 
 ---------------------------------------------------------------------------
 (* C04: valid streams (no violation, no Close) cut at every frame count and cut class *)
@@ -67,7 +74,14 @@ C08Pairs ==
       p \in {"one", "two"}, z \in BOOLEAN }
 (* only programs whose first message is delivered continue to a second one *)
 C08PairsOK == { r \in C08Pairs : r.prog[1].exp.o = "deliver" }
-C08Rows == SetToSeq(C08SingleOK \cup C08PairsOK)
+(* the limit is changed while the message is being read: after midAfter bytes have been handed over, SetReadLimit(midLimit) *)
+C08Mid ==
+  { [prog |-> << [set |-> TRUE, limit |-> L1, frags |-> Frag(sz, p), comp |-> z, final |-> FALSE, mid |-> TRUE, midAfter |-> k, midLimit |-> L2,
+                  exp |-> MidOutcome(L1, L2, sz)] >>] :
+      L1 \in {125, 4096, 32768}, L2 \in {-1, 0, 125, 4096, 65536}, sz \in {100, 4000, 5000, 33000, 70000},
+      k \in {1, 126, 3000, 20000}, p \in {"one", "two", "many"}, z \in BOOLEAN }
+C08MidOK == { r \in C08Mid : LET e == r.prog[1] IN e.midAfter < SumSeq(e.frags) /\ (e.limit < 0 \/ e.midAfter <= e.limit) /\ e.limit # e.midLimit }
+C08Rows == SetToSeq(C08SingleOK \cup C08PairsOK \cup C08MidOK)
 
 (* memory clause: what a frame header declares, or how well a payload compresses, must not  *)
 (* decide how much is allocated; only what is actually handed over may                       *)
